@@ -27,6 +27,29 @@ may::coroutine_local!(static SLOT: RefCell<Loc> = {
     RefCell::new(Loc(0))
 });
 
+/// a blocking socket read of a fresh coroutine: the data arrives 2 ms later; the read must deliver it (a stale
+/// error left in the pooled generator would be reported by the io path as the result of this read)
+pub fn innocent_io_probe() -> String {
+    use std::io::{Read, Write};
+    let (mut a, b) = match may::os::unix::net::UnixStream::pair() {
+        Ok(p) => p,
+        Err(e) => return format!("pair failed: {e:?}"),
+    };
+    let w = std::thread::spawn(move || {
+        std::thread::sleep(Duration::from_millis(2));
+        let mut b = b;
+        let _ = b.write_all(&[42]);
+        std::thread::sleep(Duration::from_millis(2));
+    });
+    let mut buf = [0u8; 4];
+    let r = a.read(&mut buf);
+    let _ = w.join();
+    match r {
+        Ok(1) if buf[0] == 42 => "Ok".to_string(),
+        other => format!("{other:?}"),
+    }
+}
+
 struct Shared {
     bad: StdMutex<Vec<(String, String)>>,
     blocker: StdMutex<Option<Arc<Blocker>>>,
@@ -136,6 +159,10 @@ pub fn build(ctl: &'static Ctrl, params: &Value) -> Instance {
                 may::verif::pt("ru.ipark", 0, 0, 0);
                 let r = b.park(None);
                 *shy.innocent_result.lock().unwrap() = Some(format!("{r:?}"));
+                let io = innocent_io_probe();
+                if io != "Ok" {
+                    shy.bad.lock().unwrap().push(("stale_result_inherited".into(), format!("the innocent coroutine's first blocking socket read returned {io}")));
+                }
             })
         };
         may::verif::pt("ru.unpark", 0, 0, 0);
@@ -226,6 +253,7 @@ may::coroutine_local!(static KA: RefCell<Tracked> = {
     RefCell::new(Tracked(0, K_IDS.fetch_add(1, SeqCst)))
 });
 may::coroutine_local!(static KB: std::cell::Cell<u64> = std::cell::Cell::new(5));
+may::coroutine_local!(static KC: std::cell::Cell<u64> = std::cell::Cell::new(0));
 
 /// params: actors: [{name, co, rounds, end: "ret"|"panic"}], victims
 pub fn build_cls(ctl: &'static Ctrl, params: &Value) -> Instance {
@@ -282,6 +310,32 @@ pub fn build_cls(ctl: &'static Ctrl, params: &Value) -> Instance {
                 may::verif::pt("cls.read", 0, 0, 0);
                 let a = KA.with(|k| k.borrow().0);
                 let b = KB.with(|k| k.get());
+                // the same key used again while a closure of it runs (nested access), and another key first used
+                // inside: both must see the one value of this context
+                let nested = KA.with(|outer| {
+                    let o = outer.borrow().0;
+                    let i = KA.with(|inner| inner.borrow().0);
+                    let c = KC.with(|c| {
+                        c.set(c.get() + 1);
+                        c.get()
+                    });
+                    (o, i, c)
+                });
+                if nested.0 != me || nested.1 != me || nested.2 != r + 1 {
+                    bad2.lock().unwrap().push(("local_changed".into(), format!("{nm}: round {r}: nested access reads ({}, {}), third key counts {} (expected {me}, {me}, {})", nested.0, nested.1, nested.2, r + 1)));
+                }
+                // a panic inside the closure must not lose the value
+                let _ = std::panic::catch_unwind(std::panic::AssertUnwindSafe(|| {
+                    KA.with(|_| {
+                        if r == 0 {
+                            std::panic::resume_unwind(Box::new("inside with"));
+                        }
+                    })
+                }));
+                let a2 = KA.with(|k| k.borrow().0);
+                if a2 != me {
+                    bad2.lock().unwrap().push(("local_changed".into(), format!("{nm}: round {r}: after a panic inside with() the value reads {a2}, expected {me}")));
+                }
                 if a != me || b != me * 10 + r {
                     bad2.lock().unwrap().push(("local_changed".into(), format!("{nm}: round {r}: reads ({a}, {b}), wrote ({me}, {})", me * 10 + r)));
                 }
